@@ -89,6 +89,12 @@ def split_calls(trace):
                 if cl:
                     op.kind, op.klass, op.label = "x", cl[0][2], "x:" + cl[0][2]
                     op.timeout = True
+                elif any(r[0] in ("op", "strategy", "sleep") or (r[0] == "metric" and r[1] != "aborted")
+                         for r in c.segs[i]) or i + 1 < len(c.ops):
+                    # the run went on after the cut: it was the attempt timeout, yet the
+                    # classifier was never asked what a TimeoutError is
+                    op.kind, op.klass, op.label = "x", "?", "x:?"
+                    op.timeout = True
                 else:
                     op.kind = "cancel"
     return calls
